@@ -683,7 +683,7 @@ static bool run_scope(Ctx& cx, const Opts& opts) {
         if (!poll()) return false;
         Path p = pick(board, t);
         for (auto& R : rects) { check_one(cx, R, p); if (!cx.lines) cnt("walk_cases"); }
-        if (rep.samples.size() < 4 && n >= 5 && (idx & 1023) == 1) rep.sample("walk R=" + rstr(rects[0]) + " P=" + str(p));
+        if (rep.samples.empty() && n >= 5 && (idx & 1023) == 1) rep.sample("walk R=" + rstr(rects[0]) + " P=" + str(p));
         return true;
       });
       if (!completed) done = false;
